@@ -225,6 +225,9 @@ pub fn replay(p: &'static OscProp, case: &Value, tier: Tier) -> Vec<Violation> {
         return vec![Violation { check: "replay".into(), signature: String::new(), what: format!("invalid program: {e}"), case: case.clone() }];
     }
     let mut out = CaseOut::default();
+    // the corpus is small: golden and regression cases are always explored with the large caps
+    let _ = tier;
+    let tier = Tier::Thorough;
     match decide(p, &c, tier, &mut out, true) {
         Ok(()) => vec![],
         Err((signature, what)) => vec![Violation { check: "osc".into(), signature, what, case: case.clone() }],
